@@ -40,10 +40,20 @@ def mkGrid (box : Box3 α) (n : I3) (px py pz : Bool) : Grid α :=
   { box := box, n := n, px := px, py := py, pz := pz,
     cs := ⟨csx, csy, csz⟩, ics := ⟨1.0 / csx, 1.0 / csy, 1.0 / csz⟩ }
 
-/-- `get_cell_indices` -/
-def cellIndices (g : Grid α) (p : V3 α) : I3 :=
+/-- the plain index arithmetic of `get_cell_indices` (before the clamp) -/
+def rawIndices (g : Grid α) (p : V3 α) : I3 :=
   ⟨Trunc.toInt ((p.x - g.box.ax) * g.ics.x), Trunc.toInt ((p.y - g.box.ay) * g.ics.y),
    Trunc.toInt ((p.z - g.box.az) * g.ics.z)⟩
+
+/-- `if (ix == _ncell.x() && position.x() <= top_anchor.x()) { ix = _ncell.x() - 1; }`: round off can
+push a position less than one ulp below an upper face of the box to index `_ncell` -/
+def clampTop (n i : Int) (p top : α) : Int := if i = n ∧ p ≤ top then n - 1 else i
+
+/-- `get_cell_indices` (with the clamp of fix d8603ab; `top_anchor = anchor + sides`) -/
+def cellIndices (g : Grid α) (p : V3 α) : I3 :=
+  let r := rawIndices g p
+  ⟨clampTop g.n.x r.x p.x (g.box.ax + g.box.sx), clampTop g.n.y r.y p.y (g.box.ay + g.box.sy),
+   clampTop g.n.z r.z p.z (g.box.az + g.box.sz)⟩
 
 /-- `get_cell(index)`: `anchor + cellside * index`, sides = `_cellside` -/
 def cellBox (g : Grid α) (i : I3) : Box3 α :=
